@@ -52,6 +52,10 @@ TEMPL = [
     ("{x * y - z}", ["x", "y", "z"], [], [], None), ("C(A, contr.treatment(base='u'))", ["A"], [], [], None),
     ("I(x + cfg.opts.offset)", ["x"], ["cfg.opts.offset"], [], None), ("{z * cfg.k}", ["z"], ["cfg.k"], [], None),
     ("np.linalg.norm([x, z], axis=0)", ["x", "z"], [], [], None), ("I(np.add.reduce([x, y]))", ["x", "y"], [], [], None),
+    # dotted (R-style) column names: quoted inside Python code, and bare names whose first component spells a built-in transform
+    ("log(`a.b`)", ["a.b"], [], [], None), ("{`a.b` + x}", ["a.b", "x"], [], [], None), ("I(`log.income` * 2)", ["log.income"], [], [], None),
+    ("log.income", ["log.income"], [], [], None), ("`scale.x`", ["scale.x"], [], [], None), ("scale.x:center(x)", ["scale.x", "x"], [], [], None),
+    ("center(scale)", ["scale"], [], [], "c17.transform_named_column_as_argument"), ("{scale + 1}", ["scale"], [], [], "c17.transform_named_column_as_argument"),
     ("Q('z')", ["z"], [], [], "c17.Q_call_not_reported"), ("Q('x y')", ["x y"], [], [], "c17.Q_call_not_reported"),
     ("{y.clip(0, 1)}", ["y"], [], [], "c17.attribute_access_pseudo_variable"), ("I(z.abs())", ["z"], [], [], "c17.attribute_access_pseudo_variable"),
     ("{sum([q for q in [x, z]])}", ["x", "z"], [], [], "c17.lambda_or_comprehension"), ("{(lambda t: t * 2)(z)}", ["z"], [], [], "c17.lambda_or_comprehension"),
@@ -69,6 +73,7 @@ def mkdata(seed):
         "B": pd.Categorical([r.choice("kl") for _ in range(N)], categories=list("kl")),
         "x y": rng.normal(size=N), "w+1": rng.normal(size=N), "class": rng.normal(size=N), "unused": rng.normal(size=N),
         "scale": rng.normal(size=N), "C": rng.normal(size=N),
+        "a.b": rng.normal(size=N), "log.income": rng.uniform(1, 2, size=N), "scale.x": rng.normal(size=N),
     })
 
 
@@ -77,8 +82,8 @@ def gen_required(rng: random.Random, tier: str) -> dict:
     pool = [i for i, t in enumerate(TEMPL) if (t[4] is None) or k4]
     facs = rng.sample(pool, rng.randint(1, 4))
     texts = [TEMPL[i][0] for i in facs]
-    if any(t.split(":")[0] in ("scale", "C") for t in texts):  # a data column called `scale` / `C` hides the transform of that name
-        facs = [i for i in facs if TEMPL[i][0].split(":")[0] in ("scale", "C") or not ("scale(" in TEMPL[i][0] or "C(" in TEMPL[i][0])]
+    if any(v in ("scale", "C") for i in facs for v in TEMPL[i][1]):  # a data column called `scale` / `C` hides the transform of that name
+        facs = [i for i in facs if any(v in ("scale", "C") for v in TEMPL[i][1]) or not ("scale(" in TEMPL[i][0] or "C(" in TEMPL[i][0])]
     terms = []
     for _ in range(rng.randint(1, 3)):
         terms.append(rng.sample(facs, rng.randint(1, min(2, len(facs)))))
@@ -93,7 +98,7 @@ def judge_required(case) -> Outcome:
     used = [TEMPL[i] for t in case["terms"] for i in t]
     out.sig = (tuple(sorted({i for t in case["terms"] for i in t})), case["two"], tuple(sorted(len(t) for t in case["terms"])))
     df = mkdata(case["seed"])
-    if not any(TEMPL[i][0].split(":")[0] in ("scale", "C") for t in case["terms"] for i in t):
+    if not any(v in ("scale", "C") for t in case["terms"] for i in t for v in TEMPL[i][1]):
         df = df.drop(columns=["scale", "C"])
     import types
 
@@ -318,7 +323,7 @@ def judge_layers(case) -> Outcome:
 
 
 def gen_dot(rng: random.Random, tier: str) -> dict:
-    names = rng.sample(["a", "b", "c", "d", "e", "x1", "q q", "zz", "y", "y.lag", "Sepal.Length", "Sepal", "a.b", "b.c.d"], rng.randint(2, 8))
+    names = rng.sample(["a", "b", "c", "d", "e", "x1", "q q", "zz", "y", "y.lag", "Sepal.Length", "Sepal", "a.b", "b.c.d", "log.income", "scale.x"], rng.randint(2, 8))
     if "y" not in names:
         names.insert(rng.randint(0, len(names)), "y")
     others = [n for n in names if n != "y"]
